@@ -3,6 +3,7 @@ package legs
 import (
 	"fmt"
 	"math/rand"
+	"strconv"
 	"strings"
 	"time"
 	"unicode"
@@ -328,7 +329,7 @@ func vmCheck(sz vmSizes) func(c *core.Ctx, cases []engCase) []core.Outcome {
 				continue
 			}
 			ans, err := parseSx(res[pi])
-			if err != nil || ans.head() != "vm" || len(ans.args()) != 2+len(p.atts) {
+			if err != nil || ans.head() != "vm" || len(ans.args()) != 3+len(p.atts) {
 				o.Fail = &core.Failure{Kind: "correspondence-break", Key: "W:driver-answer", Summary: p.which + " program: the Lean driver did not answer the request", Expected: "(vm wf …)", Got: res[pi]}
 				continue
 			}
@@ -341,9 +342,17 @@ func vmCheck(sz vmSizes) func(c *core.Ctx, cases []engCase) []core.Outcome {
 				o.Fail = &core.Failure{Kind: "correspondence-break", Key: "W:potential-exceeds-need:" + p.which, Summary: fmt.Sprintf("potOk is false for the %s program of %q (options %d): the positions of the program can push more than 4*TrackCount = %d slots between two storage checks (hypothesis of vm_track_no_overflow_program): %v", p.which, cs.Pattern, cs.Opts, 4*p.code.TrackCount, p.code.Codes), Expected: "potOk", Got: "not potOk"}
 				continue
 			}
+			if args[2].atom != "0" {
+				opname := "none"
+				if n, err := strconv.Atoi(args[2].atom); err == nil && n >= 1 && n <= 64 {
+					opname = vmOpName(n - 1)
+				}
+				o.Fail = &core.Failure{Kind: "correspondence-break", Key: "W:untyped:" + opname, Summary: fmt.Sprintf("StackTyping.typed is false for the %s program of %q (options %d): no consistent grouping-stack typing (height and kind of every slot at every instruction boundary); first failing instruction: %s: %v", p.which, cs.Pattern, cs.Opts, opname, p.code.Codes), Expected: "typed", Got: "untyped at " + opname}
+				continue
+			}
 			for ai := range p.atts {
 				a := &p.atts[ai]
-				want, got := a.render(), sxRender(args[2+ai])
+				want, got := a.render(), sxRender(args[3+ai])
 				if want == got {
 					continue
 				}
